@@ -178,7 +178,7 @@ impl Ctx {
                 }
             }
         };
-        match self.mode {
+        match &self.mode {
             OutMode::Stdout => {
                 write_all(1, bytes, 65536);
             }
@@ -237,6 +237,13 @@ impl Ctx {
                     write_all(1, bytes, 65536);
                 }
                 let dest = cstr(&link_dest(&self.arg1));
+                let c = cstr(&self.arg3);
+                unsafe {
+                    libc::symlink(dest.as_ptr(), c.as_ptr());
+                }
+            }
+            OutMode::LinkDir(dir) => {
+                let dest = cstr(dir);
                 let c = cstr(&self.arg3);
                 unsafe {
                     libc::symlink(dest.as_ptr(), c.as_ptr());
